@@ -33,6 +33,14 @@ SRC_TIE = {
            "back to mk_summary (OK iff no failure and something ran or was ignored; the six figures in order), the runner emits exactly one reverse before "
            "the first run, one fresh TestResult and one runAllTests per repetition, and returns exit_value of the accumulated counts -- zero iff every "
            "repetition was clean, below 2^32 failures (the wrap of the (int) cast is exhibited). Utest::run's setjmp / exception control flow stays model + correspondence.",
+    "C16": " SOURCE TIE BY PROOF: JUnitTestOutput's collection of results (printCurrentTestStarted / printCurrentTestEnded / printFailure / "
+           "printCurrentGroupEnded / resetTestGroupResult) and all its writers (writeXmlHeader, writeTestSuiteSummary, writeProperties, writeTestCases, "
+           "writeFailure, writeFileEnding, writeTestGroupToFile) are regenerated from the source on every run (tools/cxx2heap.py; new / delete of result "
+           "nodes as events with the constructor's zero initialisers checked, StringFromFormat / writeToFile as format / write events with typed "
+           "arguments, the clock and willRun() as ghost streams) and proved to follow the model's junit_step on the heap (only the first failure of a "
+           "test kept and counted) and to write, rendered through a printf for the %s / %d / %03d subset with encodeXmlText on every text argument, exactly "
+           "the bytes of the model's write_group (times as the code prints them; the model's 0.000 is the instance at 0). createFileName / "
+           "encodeXmlText / print() themselves stay model + correspondence.",
     "C11": " SOURCE TIE BY PROOF: GccPlatformSpecificRunTestInASeperateProcess (fork failure, the child's verdict, the parent's wait loop with its retry "
            "bound and SIGCONT) and SetTestFailureByStatusCode are regenerated from UtestPlatform.cpp on every run (tools/cxx2gal.py; fork / "
            "waitpid / getFailureCount as ghost oracle streams) and proved to do what the model's parent_loop / set_failure_by_status say on every "
